@@ -77,20 +77,34 @@ package main
 //   absent     base-IRI subjects (root element), list statements (inlist), copied patterns
 //              (rdfa:copy), rdfa:usesVocabulary, empty text content, elements without metadata
 //   checked    the slice is exactly an attribute name / attribute value (as delimited by the HTML
-//              tokenizer rules) of a start tag, a start tag, an element `<x …>…</x>`, or the content
-//              between a start tag and an end tag; the attribute is one the decoder reads for that slot;
-//              plain values relate to the term (literal: decoded value is the lexical form; IRI: equal,
-//              or ends with the reference / CURIE reference / term; blank node `_:x`: label); content:
-//              when well nested, its text is the lexical form
+//              tokenizer rules) of a start tag, a start tag, an element from the `<` of its start tag to
+//              the end of a later token, or the content from the end of a start tag to the start of a
+//              later token / the end of the document (implied end tags and unclosed elements: inspecthtml
+//              derives those ends from the last child or next sibling); the attribute is one the decoder
+//              reads for that slot; plain values relate to the term (literal: the value as the tokenizer
+//              decodes it is the lexical form, except the canonicalised datetime / meter values; IRI:
+//              its letters and digits end with those of the reference / CURIE reference / term; blank
+//              node `_:x`: label); content: when it and the whole document are well nested, its text is
+//              the lexical form (not for XMLLiteral / HTML literals and html/head/body, which the tree
+//              builder merges); an empty range is accepted only for the empty literal of an empty element
 //
 // HTML-embedded JSON-LD (encoding/htmljsonld): the JSON-LD ranges, the embedded decoder starting at the
 // end of the `<script>` start tag: as JSON-LD, and the slice lies in the text of a script element.
 // Combined HTML decoder (encoding/html/htmldefaults): union of the three (JSON-LD in lax mode).
+// decode() gives the blank node factory to rdfjson, rdfxml, jsonld and rdfa only: for the other formats a
+// labelled blank node cannot be told from a generated one and both forms of range are accepted.
+//
+// Sub-keys. Root causes found so far have their own sub-key (zero-range, xml-tagname-slash,
+// xml-attrname-overreach, xml-subject-of-other-node, html-unquoted-value-range,
+// jsonld-list-first-has-property-key); any other sub-key raised on a document with a known root-cause
+// trait (wholeDocTraits in whole_html.go: unquoted-attr, attr-nospace, attr-slash, attr-soup, dup-attr,
+// script-cr, json-comment, short-comment, unquoted-slash-end, unclosed-formatting, xml-attr) is written
+// "<sub>@<traits>". Missing-range reasons start with a stable key followed by ": ".
+// Development aids (environment): C16X_DUMP=1|bad, C16X_SKIP=sub,…, C16X_SKIPTRAITS=1.
 
 import (
 	"fmt"
 	"os"
-	"reflect"
 	"regexp"
 	"strconv"
 	"strings"
@@ -112,6 +126,11 @@ const (
 	rdfHTMLLit   = rdfNS + "HTML"
 	rdfaNS       = "http://www.w3.org/ns/rdfa#"
 )
+
+var specificSubs = map[string]bool{
+	"zero-range": true, "xml-tagname-slash": true, "xml-attrname-overreach": true, "xml-subject-of-other-node": true,
+	"html-unquoted-value-range": true, "jsonld-list-first-has-property-key": true,
+}
 
 var dumpSlices = os.Getenv("C16X_DUMP") != ""
 var skipTraits = os.Getenv("C16X_SKIPTRAITS") != ""
@@ -152,6 +171,15 @@ func wholeSlice(sc sliceCtx) (sub, msg string) {
 	if skipTraits && wholeDocTraits(sc.c.format, sc.doc) != "" {
 		return "", ""
 	}
+	// a violation in a document with a known root-cause trait is keyed "<sub>@<traits>" (unless the
+	// sub-key names a root cause itself), so that the findings can be told apart
+	defer func() {
+		if sub != "" && !specificSubs[sub] {
+			if tr := wholeDocTraits(sc.c.format, sc.doc); tr != "" {
+				sub += "@" + tr
+			}
+		}
+	}()
 	if sc.slice == "" {
 		if sc.fb == 0 && sc.res.stmts[sc.i].r[sc.slot].from == (off{}) {
 			return "zero-range", "the range is the zero value 0.0.0-0.0.0 (no position was recorded)"
@@ -187,17 +215,25 @@ func wholeMissingRangeOK(c cfg, res *result, i, slot int) string {
 	if d := docOf(res); skipTraits && d != nil && wholeDocTraits(c.format, d) != "" {
 		return ""
 	}
+	r := ""
 	switch c.format {
 	case "rdfjson":
-		return "rdfjson-always: every RDF/JSON statement is read from three tokens"
+		r = "rdfjson-always: every RDF/JSON statement is read from three tokens"
 	case "rdfxml":
 		return rdfxmlMissing(c, res, i, slot)
 	case "jsonld":
-		return jsonldMissing(c, res, i, slot, docOf(res))
+		r = jsonldMissing(c, res, i, slot, docOf(res))
 	case "rdfa", "microdata", "htmljsonld", "html":
-		return htmlMissing(c, res, i, slot)
+		r = htmlMissing(c, res, i, slot)
 	}
-	return ""
+	if r != "" {
+		if tr := wholeDocTraits(c.format, docOf(res)); tr != "" {
+			if k := strings.Index(r, ": "); k > 0 {
+				r = r[:k] + "@" + tr + r[k:]
+			}
+		}
+	}
+	return r
 }
 
 // ---------------------------------------------------------------- shared helpers
@@ -290,15 +326,8 @@ func iriRefOK(iri, ref string) bool {
 	return strings.HasSuffix(skeleton(iri), skeleton(ref))
 }
 
-// docOf: the document a result was decoded from (field `doc` of result, when common.go provides it;
-// nil otherwise: the document-dependent rules are then lenient).
-func docOf(res *result) []byte {
-	v := reflect.ValueOf(res).Elem().FieldByName("doc")
-	if !v.IsValid() || v.Kind() != reflect.Slice {
-		return nil
-	}
-	return v.Bytes()
-}
+// docOf: the document a result was decoded from.
+func docOf(res *result) []byte { return res.doc }
 
 func quoteClip(s string) string { return fmt.Sprintf("%q", clip(s, 80)) }
 
